@@ -1050,7 +1050,10 @@ class Interp(object):
         ts = []
         for p in parts:
             if isinstance(p, PatStr):
-                raise Unsupported('mixing pattern string with symbolic string')
+                # a text with number holes next to a symbolic text: the holes become py_str_int(n) (A-BUILTIN), the whole a z3 string
+                for q in p.parts:
+                    ts.append(z3.StringVal(q) if isinstance(q, str) else self.to_str_term(q))
+                continue
             ts.append(term(p) if kind_of(p) == 'str' else self.to_str_term(p))
         if len(ts) == 1:
             return SV('str', ts[0])
@@ -1401,6 +1404,20 @@ class Interp(object):
                 return f(*args)
             if isinstance(f, types.BuiltinMethodType) and isinstance(f.__self__, str) and f.__name__ == 'join':
                 return self.str_join(f.__self__, args[0], node)
+            if isinstance(f, types.BuiltinMethodType) and isinstance(f.__self__, dict) and f.__name__ == 'get' and 1 <= len(args) <= 2 and not kwargs and isinstance(args[0], SV):
+                # dict.get(symbolic key, default) on a concrete dict: a text never equals a number; keys of the key's own kind are tried in turn
+                k = args[0]
+                numeric = ('int', 'real', 'bool')
+                for kk, vv in f.__self__.items():
+                    same = (k.kind == 'str' and isinstance(kk, str)) or (k.kind in numeric and isinstance(kk, (int, float)) and not isinstance(kk, str))
+                    if not same:
+                        if k.kind not in numeric + ('str',) or not isinstance(kk, (str, int, float)):
+                            raise Unsupported(f'dict.get with a symbolic {k.kind} key (line {node.lineno})')
+                        continue
+                    eq = self.compare(ast.Eq(), k, kk, node)
+                    if self.truth(eq, node):
+                        return vv
+                return args[1] if len(args) == 2 else None
             raise Unsupported(f'call of {getattr(f, "__name__", f)!r} with symbolic arguments (line {node.lineno})')
         try:
             return f(*args, **kwargs)
@@ -1454,6 +1471,13 @@ class Interp(object):
             return obj.sym_method(self, attr, args, kwargs, node)
         if isinstance(obj, SV) and obj.kind == 'str':
             if attr in ('upper', 'lower', 'strip') and not args:
+                f = z3.Function(f'str_{attr}', z3.StringSort(), z3.StringSort())
+                return SV('str', f(obj.t))
+            if attr in ('strip', 'lstrip', 'rstrip') and len(args) == 1 and isinstance(args[0], str):
+                # stripping a given set of characters: an uninterpreted function of the text (per method and character set)
+                f = z3.Function(f'str_{attr}_{"".join(f"{ord(c):02x}" for c in sorted(set(args[0])))}', z3.StringSort(), z3.StringSort())
+                return SV('str', f(obj.t))
+            if attr in ('lstrip', 'rstrip', 'casefold', 'title', 'capitalize', 'swapcase') and not args:
                 f = z3.Function(f'str_{attr}', z3.StringSort(), z3.StringSort())
                 return SV('str', f(obj.t))
             if attr == 'splitlines' and not args:
